@@ -1271,6 +1271,20 @@ fn tween_one(which: usize, t: &TweenScene, ms: &[Motion], ctx: &mut Ctx) {
 			}
 		}
 	}
+	// a listener turning in place: the ear gains follow the orientation frame by frame - a whole internal buffer that stands still at a
+	// level different from the one before it is a step, not a turn
+	if which == 2 && t.frames as usize > IBS && out.len() >= 2 * IBS {
+		let before = out[IBS - 1];
+		let chunk = &out[IBS..2 * IBS];
+		let constant = chunk.iter().all(|f| (f.0 - chunk[0].0).abs() < 1e-9 && (f.1 - chunk[0].1).abs() < 1e-9);
+		let jumped = (chunk[0].0 - before.0).abs() > 1e-3 || (chunk[0].1 - before.1).abs() > 1e-3;
+		if constant && jumped {
+			ctx.fail(
+				format!("the ear gains jump at a buffer boundary and stand still inside the buffer while the listener turns (stepwise instead of frame by frame) :: tween of {}", TWEENS[which]),
+				format!("{} -> frame {} = {:?}, then frames {}..{} all {:?}; all frames {:?}", what, IBS - 1, before, IBS, 2 * IBS, chunk[0], out),
+			);
+		}
+	}
 	// after the tween the scene renders like the static target scene
 	let target = Scene { lpos: t.lpos, lq: t.lq, epos: t.epos, sp: Sp { s: t.s, ..t.sc.sp } };
 	let mut c = Ctx::default();
